@@ -192,7 +192,7 @@ func (sc *Scenario) Index() {
 			switch s.Kind {
 			case SecY, SecCall, SecAsgCall, SecLocal, SecReader, SecIfCall, SecUpd:
 			case SecConc:
-				if s.Arg&(1<<ChAsgField|1<<ChFunc) != 0 {
+				if s.Arg&(1<<ChAsgField|1<<ChFunc) != 0 || ConcExtras(s.Arg) > 0 {
 					sc.OnlyHReq = false
 				}
 			default:
@@ -204,7 +204,7 @@ func (sc *Scenario) Index() {
 			if s.Kind == SecStop {
 				sc.NeedTag = true
 			}
-			if s.Kind == SecConc && s.Arg&(1<<ChFunc) != 0 {
+			if s.Kind == SecConc && (s.Arg&(1<<ChFunc) != 0 || ConcExtras(s.Arg) > 2) {
 				sc.NeedKf = true
 			}
 			if s.Kind == SecFuncCall || s.Kind == SecIfFunc {
